@@ -89,10 +89,14 @@ def g2_no_lhs_labels(ctx) -> None:
     f = m.node
     ctx.analysed(m)
     rets = [r for r in C.returns_of(f) if r.value is not None]
-    if len(rets) != 1 or not isinstance(rets[0].value, ast.Name):
-        raise AnalysisError("G2: _no_lhs_labels does not return a plain name")
-    res = rets[0].value.id
-    ds = [d for d in D.definitions(f).get(res, []) if d[1] is not None]
+    if len(rets) != 1:
+        raise AnalysisError("G2: _no_lhs_labels has several returns")
+    if isinstance(rets[0].value, ast.Name):
+        res = rets[0].value.id
+        ds = [d for d in D.definitions(f).get(res, []) if d[1] is not None]
+    else:
+        res = "<returned set>"
+        ds = [(rets[0], rets[0].value, (), "assign")]
     forms = ("set(itertools.filterfalse(self.rules_dict.__contains__, itertools.chain.from_iterable(self.rules_dict.values())))",
              "{_M_l for _M_c in self.rules_dict.values() for _M_l in _M_c if _M_l not in self.rules_dict}",
              "set((_M_l for _M_c in self.rules_dict.values() for _M_l in _M_c if _M_l not in self.rules_dict))")
@@ -142,10 +146,7 @@ def g3_equivalence_paths(ctx) -> None:
         mt = PT.match(PT.compile_pattern("zip(_E_p[:-1], _E_p[1:])"), inner_loop.iter)
         if mt is None:
             continue
-        src = mt["_E_p"]
-        ds = [d for d in D.definitions(f).get(src, []) if d[1] is not None]
-        if ds and len(ds) == 1:
-            src = norm(ds[0][1])
+        src = norm(D.expanded(f, ast.parse(mt["_E_p"], mode="eval").body))
         if src == want_call:
             paths.append((inner_loop, {"_M_a": norm(inner_loop.target.elts[0]), "_M_b": norm(inner_loop.target.elts[1])}))
     if not paths:
@@ -154,7 +155,7 @@ def g3_equivalence_paths(ctx) -> None:
         if not fp:
             ctx.violation("G3", lp, f"each label without a left-hand side must be connected by equivdb.find_path({lab}, <tree parent of its representative>)")
             return
-        a = [norm(x) for x in fp[0].args]
+        a = [norm(D.expanded(f, x)) for x in fp[0].args]
         want = [lab, f"self.eqvparent_to_parent[self.ruledb.equivdb[{lab}]]"]
         if a != want:
             ctx.violation("G3", fp[0], f"the path must lead from the label itself to the actual parent standing for its representative: find_path({', '.join(want)}); found ({', '.join(a)})")
